@@ -108,6 +108,9 @@ func (a *Auth) LoginPost(w http.ResponseWriter, r *http.Request) error {
 	logger.Infof("user %s logged in", pid)
 	authboss.PutSession(w, authboss.SessionKey, pid)
 	authboss.DelSession(w, authboss.SessionHalfAuthKey)
+	// A second factor proven earlier in this session was proven by whoever was
+	// logged in then; this login did not involve one.
+	authboss.DelSession(w, authboss.Session2FA)
 
 	handled, err = a.Authboss.Events.FireAfter(authboss.EventAuth, w, r)
 	if err != nil {
